@@ -571,6 +571,10 @@ def sampler_record_histories(res, tier):
                     m = make()
                     setattr(m, name, api.m.Sampler.VibratoType(v) if name == "vibrato_type" else v)
                     m.panning = -100
+                    if v % 2:
+                        # (the instrument's name, next to these fields in the record, is longer than its 22-byte field and is
+                        #  cut inside a multi-byte character)
+                        m.instrument_name = ("Grand Piano \u00e9\u00e9\u00e9\u00e9\u00e9\u65e5\u672c" if v % 4 == 1 else "\U0001f600" * 6).encode("utf8")
                     back = workload.load(api.Synth(m).read()).module
                 except Exception as e:
                     res.violation(f"C10:sampler-record-raises:{hname}:{workload.exc_key(e)}", f"Sampler ({hname}).{name} = {v!r}: {e!r}", case)
